@@ -70,7 +70,9 @@ def generate(rng, tier, idx):
         n = int(rng.choice([1, 2, 3, 5, 8]))
         x = dom_vec(rng, kind, n) if kind != "R" else rng.normal(size=n) * 3
         x = np.where(np.abs(x) < 1e-3, 1.0, x)
-        y = x * (1 + rng.uniform(-1e-6, 1e-6, size=n))
+        # relative perturbation of magnitude 1e-7..1e-6, either sign: small enough to be "near", large enough that the cancellation inside a
+        # term (x - m, sqrt(x) - sqrt(y)) costs at most ~eps/1e-7 = 2e-9 relative, far below the 1e-6 the comparison grants
+        y = x * (1 + rng.uniform(1e-7, 1e-6, size=n) * rng.choice([-1.0, 1.0], size=n))
         zeros = False
     elif scale == 1.0 and r < 0.165:
         n = int(rng.choice([1024, 2048]))   # block-wise summation code paths (multiples of a chunk size)
@@ -122,7 +124,9 @@ def check(case):
     res.see("layout:" + case["layout"])
     if case.get("neardup"):
         g2, r2 = (got * got, ref * ref) if name in SQRT_FORMS else (got, ref)
-        tol = 1e-6 * abs(r2) + 1e-300
+        # conditioning of the per-term differences: a pair that differs by a relative delta loses ~eps/delta of relative accuracy in x - y
+        dmin = min([abs(a - b) / max(abs(a), abs(b)) for a, b in zip(x, y) if a != b] or [1.0])
+        tol = (1e-6 + 1024 * 2.220446049250313e-16 / dmin) * abs(r2) + 1e-300
         bad = not abs(g2 - r2) <= tol
         res.see("near_duplicate_cases")
     elif name in SQRT_FORMS:
